@@ -552,28 +552,28 @@ Proof. simpl. rewrite !reverse_eq_rev, !rev_involutive. split; reflexivity. Qed.
 
 (* ===================================================================== flip *)
 
-Fixpoint flip_from (ax : axarg) (c : Z) (s i : list Z) : list Z :=
+Fixpoint flip_from (N : Z) (ax : axarg) (c : Z) (s i : list Z) : list Z :=
   match s, i with
-  | n :: s', x :: i' => (if in_axis ax c then n - 1 - x else x) :: flip_from ax (c + 1) s' i'
+  | n :: s', x :: i' => (if in_axis N ax c then n - 1 - x else x) :: flip_from N ax (c + 1) s' i'
   | _, _ => []
   end.
 
-Lemma flip_steps_index_from ax s : forall i c,
-  slice_steps_index (flip_steps_from ax c (length s)) s i = flip_from ax c s i.
+Lemma flip_steps_index_from N ax s : forall i c,
+  slice_steps_index (flip_steps_from N ax c (length s)) s i = flip_from N ax c s i.
 Proof.
   induction s as [|n s IH]; intros [|x i] c; simpl; try reflexivity.
-  rewrite IH. destruct (in_axis ax c); reflexivity.
+  rewrite IH. destruct (in_axis N ax c); reflexivity.
 Qed.
 
-Lemma flip_index_from ax s i : flip_index ax s i = flip_from ax 0 s i.
-Proof. unfold flip_index, flip_slices, zlen. rewrite Nat2Z.id. apply flip_steps_index_from. Qed.
+Lemma flip_index_from ax s i : flip_index ax s i = flip_from (zlen s) ax 0 s i.
+Proof. unfold flip_index, flip_slices. unfold zlen at 2. rewrite Nat2Z.id. apply flip_steps_index_from. Qed.
 
-Lemma flip_from_length ax s : forall i c, length i = length s -> length (flip_from ax c s i) = length s.
+Lemma flip_from_length N ax s : forall i c, length i = length s -> length (flip_from N ax c s i) = length s.
 Proof. induction s as [|n s IH]; intros [|x i] c H; simpl in *; try discriminate; auto. Qed.
 
-Lemma nth_flip_from ax s : forall i c k, length i = length s -> (k < length s)%nat ->
-  nth k (flip_from ax c s i) 0 =
-  if in_axis ax (c + Z.of_nat k) then nth k s 0 - 1 - nth k i 0 else nth k i 0.
+Lemma nth_flip_from N ax s : forall i c k, length i = length s -> (k < length s)%nat ->
+  nth k (flip_from N ax c s i) 0 =
+  if in_axis N ax (c + Z.of_nat k) then nth k s 0 - 1 - nth k i 0 else nth k i 0.
 Proof.
   induction s as [|n s IH]; intros [|x i] c k Hl Hk; simpl in *; try discriminate; try lia.
   destruct k as [|k].
@@ -581,52 +581,42 @@ Proof.
   - rewrite IH by lia. replace (c + 1 + Z.of_nat k) with (c + Z.pos (Pos.of_succ_nat k)) by lia. reflexivity.
 Qed.
 
-Lemma in_axis_np N ax k : (forall a, In a (axes_of ax) -> 0 <= a) -> in_axis ax k = np_flipped N ax k.
+(* the axis test of flip_slices is NumPy's: negative axes count from the end *)
+Lemma in_axis_np N ax k : in_axis N ax k = np_flipped N ax k.
 Proof.
-  intros H. assert (E : forall a, In a (axes_of ax) -> norm_ax N a = a).
-  { intros a Ha. specialize (H a Ha). unfold norm_ax. destruct (Z.ltb_spec a 0); lia. }
-  destruct ax as [|a|l]; simpl in *.
+  destruct ax as [|a|l]; simpl.
   - reflexivity.
-  - rewrite (E a) by auto. now rewrite orb_false_r.
-  - induction l as [|a l IH]; simpl; [reflexivity|].
-    rewrite (E a) by (simpl; auto). f_equal. apply IH; intros; [apply H | apply E]; simpl; auto.
+  - now rewrite orb_false_r.
+  - reflexivity.
 Qed.
 
-(* on non-negative axes flip reads NumPy's element *)
-Lemma flip_index_np ax s i : (forall a, In a (axes_of ax) -> 0 <= a) -> length i = length s ->
-  flip_index ax s i = np_flip_index ax s i.
+(* flip reads NumPy's element, for every axis argument (None, one axis, a list; any sign) *)
+Lemma flip_index_np ax s i : length i = length s -> flip_index ax s i = np_flip_index ax s i.
 Proof.
-  intros Hax Hl. rewrite flip_index_from. unfold np_flip_index. rewrite Hl.
+  intros Hl. rewrite flip_index_from. unfold np_flip_index. rewrite Hl.
   apply map_seq_nth_ext; [now apply flip_from_length|].
-  intros k Hk. rewrite nth_flip_from by assumption. rewrite Z.add_0_l. now rewrite (in_axis_np (zlen s)).
+  intros k Hk. rewrite nth_flip_from by assumption. rewrite Z.add_0_l. now rewrite in_axis_np.
 Qed.
 
-Lemma flip_from_inb ax s i : inb i s -> forall c, inb (flip_from ax c s i) s.
+Lemma flip_from_inb N ax s i : inb i s -> forall c, inb (flip_from N ax c s i) s.
 Proof.
   induction 1 as [|x n i s Hx H IH]; intros c; simpl; constructor; auto.
-  destruct (in_axis ax c); lia.
+  destruct (in_axis N ax c); lia.
 Qed.
 
 Lemma flip_inb ax s i : inb i s -> inb (flip_index ax s i) s.
 Proof. intros H. rewrite flip_index_from. now apply flip_from_inb. Qed.
 
-Lemma flip_from_involutive ax s : forall i c, length i = length s ->
-  flip_from ax c s (flip_from ax c s i) = i.
+Lemma flip_from_involutive N ax s : forall i c, length i = length s ->
+  flip_from N ax c s (flip_from N ax c s i) = i.
 Proof.
   induction s as [|n s IH]; intros [|x i] c H; simpl in *; try discriminate; [reflexivity|].
-  rewrite IH by lia. f_equal. destruct (in_axis ax c); lia.
+  rewrite IH by lia. f_equal. destruct (in_axis N ax c); lia.
 Qed.
 
-(* flipping twice restores every index (for any axis argument, normalised or not) *)
+(* flipping twice restores every index *)
 Lemma flip_flip ax s i : length i = length s -> flip_index ax s (flip_index ax s i) = i.
 Proof. intros H. rewrite !flip_index_from. now apply flip_from_involutive. Qed.
-
-Lemma flip_negative_axis_refuted :
-  exists s ax i, np_flip_ok (length s) ax = true /\ inb i s /\ flip_index ax s i <> np_flip_index ax s i.
-Proof.
-  exists [2; 3], (AxOne (-1)), [0; 0]. split; [reflexivity|]. split; [repeat constructor; lia|].
-  vm_compute. discriminate.
-Qed.
 
 (* ===================================================================== reshape-based views *)
 
